@@ -327,6 +327,8 @@ def instr_shard(res, ci, thumb, tier):
         regs[ix[phys(0, mode)]] = 0x600DF00D
         if basereg is not None:
             regs[ix[phys(basereg, mode)]] = 0x10101  # unaligned base for LDR/STR (r1, or the mode's own SP / LR)
+        if kind == "wfe":
+            regs[ix["event_register"]] = bool(aif & 1)      # a pending event is consumed before HCR.TWE is looked at
         pre = tuple(regs)
         plan.restore((pre, c.base[1]))
         machine.put_instr(c.cpu, pc, word, bool(thumb), olen)
